@@ -25,6 +25,7 @@ CONSTANTS
   KnownRefund = %s
   Versions = {%s}
   AllFull = %s
+  RlpKeepsCaches = @RLP@
   GenMode = "%s"
 %s
 CHECK_DEADLOCK FALSE
@@ -42,10 +43,17 @@ POOL3 = 243000          # fits two "ample" plain transfers (2 * 121000) and a li
 
 
 ALLV = "1, 2, 3, 4, 5"
+# whether the code under test has the named deviation DecodeRLPKeepsCaches (TxApply.tla, signature part): decided per run from
+# the replay of the stored witness (detect_deviations), so that a repair or its revert needs no edit of the check
+FORM = {"rlp_keeps_caches": "FALSE"}
+
+
+def _form(cfg):
+    return cfg.replace("@RLP@", FORM["rlp_keeps_caches"])
 
 
 def m_cfg(maxtx, alphabet, pool, known="TRUE", prices="1, 2, 3", versions="5", allfull="FALSE"):
-    return CFG % ("SPECIFICATION Spec", maxtx, alphabet, pool, "all", prices, known, versions, allfull, "none", INV)
+    return _form(CFG % ("SPECIFICATION Spec", maxtx, alphabet, pool, "all", prices, known, versions, allfull, "none", INV))
 
 
 SIG_INV = """INVARIANT CacheTransparent
@@ -54,11 +62,11 @@ VIEW View"""
 
 
 def msig_cfg(maxres):
-    return CFG % ("SPECIFICATION Spec", maxres, "sig", POOL1, "all", "1, 2, 3", "TRUE", "5", "FALSE", "none", SIG_INV)
+    return _form(CFG % ("SPECIFICATION Spec", maxres, "sig", POOL1, "all", "1, 2, 3", "TRUE", "5", "FALSE", "none", SIG_INV))
 
 
 def g_cfg(maxtx, alphabet, pool, mode="leaf", prices="1, 2, 3", versions="5", allfull="FALSE"):
-    return CFG % ("INIT Init\nNEXT Next", maxtx, alphabet, pool, "one", prices, "TRUE", versions, allfull, mode, "CONSTRAINT Leaf")
+    return _form(CFG % ("INIT Init\nNEXT Next", maxtx, alphabet, pool, "one", prices, "TRUE", versions, allfull, mode, "CONSTRAINT Leaf"))
 
 
 def behaviours_of(res):
@@ -75,6 +83,29 @@ def nontrivial(b):
     if len(txs) >= 2:
         return True
     return any(t["nc"] != "eq" or t["lim"] != "ample" or t["val"] != "zero" or t["tp"][0] != "acct" for t in txs)
+
+
+def trace_cfg():
+    txt = open(os.path.join(vlib.SPEC, "TxApply_Trace.cfg")).read()
+    return txt.replace("RlpKeepsCaches = FALSE", "RlpKeepsCaches = " + FORM["rlp_keeps_caches"])
+
+
+def detect_deviations(ctx):
+    """Replay the stored witness of the repaired RLP re-use defect on the real code and see which form the code has.  (The
+    witness is also part of the behaviours judged by the monitor: if the defect is back it is reported as a VIOLATION; the
+    constant only keeps the design layer, i.e. M and the conformance run, in step with the code.)"""
+    wpath = os.path.join(vlib.VERIF, "findings", "C17_reused_object_rlp.json")
+    if not os.path.exists(wpath):
+        return
+    wit = json.load(open(wpath))["behaviours"]
+    bpath, tpath = ctx.path("witness_probe.ndjson"), ctx.path("witness_probe_trace.ndjson")
+    vlib.write_ndjson(bpath, wit)
+    ctx.drive("txapply", tpath, behaviours=bpath)
+    keeps = any(e.get("ev") == "Obj" and e.get("via") in ("rlp", "rlpstream") and e.get("op") in ("home", "hash", "apply")
+                and e.get("res") != e.get("content") for e in vlib.read_ndjson(tpath))
+    FORM["rlp_keeps_caches"] = "TRUE" if keeps else "FALSE"
+    ctx.cov["code_form"] = {"DecodeRLPKeepsCaches": keeps}
+    ctx.note("code form (from the witness replay): DecodeRLP %s the caches of a used Transaction value" % ("KEEPS" if keeps else "drops"))
 
 
 def generate(ctx):
@@ -102,7 +133,7 @@ def generate(ctx):
     # signature part: one transaction object (24 classes x 15 mutations) resolved under every sequence of up to 3 (4) signers,
     # with the sender cache as state
     msig = ctx.tlc_must("TxApply", msig_cfg(3 if quick else 4), name="M_sender_cache", timeout=900)
-    # ... and object re-use: 4 classes x every sequence of up to 3 (4) operations {home, foreign, hash, apply, json, rlp, rlpstream}
+    # ... and object re-use: 4 classes x every sequence of up to 3 (4) operations {home, foreign, hash, apply, json, rlp, rlpstream, badjson, badrlp}
     mobj = ctx.tlc_must("TxApply", msig_cfg(3 if quick else 4).replace('Alphabet = "sig"', 'Alphabet = "obj"'), name="M_object_reuse", timeout=900)
     if mobj.violated:
         raise vlib.Undecided("design-level violation in the object re-use part (%s): specification error" % mobj.violated)
@@ -120,7 +151,8 @@ def generate(ctx):
     g3 = ctx.tlc_must("TxApply", g_cfg(3, "seq", POOL3, versions="5" if quick else "3, 4, 5"), name="G1_sequences", timeout=900)
     gs = ctx.tlc_must("TxApply", g_cfg(0, "seq", POOL1, mode="sig"), name="G1_signatures", timeout=300)
     gq = ctx.tlc_must("TxApply", g_cfg(2 if quick else 3, "sig", POOL1, mode="sigseq"), name="G1_sender_cache", timeout=600)
-    go = ctx.tlc_must("TxApply", g_cfg(3 if quick else 4, "obj", POOL1, mode="objseq"), name="G1_object_reuse", timeout=600)
+    # (sequences of up to 3 operations in both tiers: length 4 is covered at design level by M_object_reuse in the thorough tier)
+    go = ctx.tlc_must("TxApply", g_cfg(3, "obj", POOL1, mode="objseq"), name="G1_object_reuse", timeout=600)
     # V sweep: 12 classes x network ids {1, 2, 99} x every V in 0 .. 2*net + 40
     gv = ctx.tlc_must("TxApply", g_cfg(0, "seq", POOL1, mode="vsweep"), name="G1_v_sweep", timeout=300)
     # big-number stage: 8 price x 3 limit x 5 affordability x 4 value classes, both call patterns; magnitudes up to 2^255 are
@@ -168,7 +200,7 @@ def judge(ctx, behs):
     for a in info["aborts"]:
         ctx.report("C17/NoPanic/process_abort", vlib.save_behaviour_replay(ctx, "C17/NoPanic/process_abort", bpath, a["b"], {}), a)
     # T (drift)
-    conf = ctx.tlc("TxApply_Trace", "TxApply_Trace.cfg", name="Conf", files={"trace.ndjson": trace}, workers=1,
+    conf = ctx.tlc("TxApply_Trace", trace_cfg(), name="Conf", files={"trace.ndjson": trace}, workers=1,
                    timeout=1500, count=False, xss="256m")
     acc = [v for v in conf.printed if isinstance(v, dict) and v.get("kind") == "ACCEPTED"]
     rej = [v for v in conf.printed if isinstance(v, dict) and v.get("kind") == "REJECTED"]
@@ -194,7 +226,7 @@ def selftest(ctx, trace):
         return
     p = ctx.path("trace_corrupt.ndjson")
     vlib.write_ndjson(p, ev[:bad + 3])
-    conf = ctx.tlc("TxApply_Trace", "TxApply_Trace.cfg", name="Conf_selftest", files={"trace.ndjson": p}, workers=1,
+    conf = ctx.tlc("TxApply_Trace", trace_cfg(), name="Conf_selftest", files={"trace.ndjson": p}, workers=1,
                    timeout=600, count=False, xss="256m")
     rej = [v for v in conf.printed if isinstance(v, dict) and v.get("kind") == "REJECTED"]
     mon = ctx.tlc("TxApply_Mon", "TxApply_Mon.cfg", name="Mon_selftest", files={"trace.ndjson": p, "known.json": "[]"}, workers=1,
@@ -225,6 +257,7 @@ def run(ctx):
                         "EVM rules of the fixture chain (Istanbul)",
                         "errors other than the three up-front reasons (intrinsic gas after purchase, value not affordable) are judged "
                         "through the miner's snapshot/revert wrapper only (DESIGN section 9, 'Refused up front')"]
+    detect_deviations(ctx)
     behs, design_cex = generate(ctx)
     behs = dedup(behs)
     for b in behs[:2] + behs[-2:]:
@@ -245,5 +278,6 @@ def run(ctx):
 
 
 def replay(ctx, path):
+    detect_deviations(ctx)
     data = json.load(open(path))
     judge(ctx, data["behaviours"])
